@@ -3,6 +3,7 @@ mod common;
 mod conc;
 mod flushd;
 mod handles;
+mod locks;
 mod openf;
 mod probe;
 mod seq;
@@ -20,6 +21,7 @@ fn main() {
     "probe" => probe::run(&args[2..]),
     "handles" => handles::run(&args[2..]),
     "flush" => flushd::run(&args[2..]),
+    "locks" => locks::run(&args[2..]),
     other => {
       eprintln!("unknown subcommand {other}");
       std::process::exit(2);
